@@ -1,7 +1,8 @@
 (* C12 - a small regular-expression model (definitions only).
-   Subset of Python's `re` syntax: literal characters, `.`, `[set]`, `[a-b]`, `[^...]`, `*`, `+`, `?`, `|`, `( )`.
-   Everything else (backslash escapes, anchors, braces, lazy or stacked quantifiers, empty branches,
-   empty groups) is answered [None] by [rx_parse]: outside the model.
+   Subset of Python's `re` syntax: literal characters, `.`, `[set]`, `[a-b]`, `[^...]`, `*`, `+`, `?`, `|`, `( )`,
+   counted repetition `{m}` `{m,}` `{m,n}` `{,n}`, the classes \d \D \w \W \s \S, escaped punctuation, `^` at the
+   start and `$` at the end of a top-level alternative.  Everything else (other escapes, anchors elsewhere, lazy or
+   stacked quantifiers, empty branches, empty groups) is answered [None] by [rx_parse]: outside the model.
    `re.match(p, s) is not None`  <->  some prefix of s is in the language of p: [rx_match_prefix]. *)
 From Coq Require Import List String Ascii Arith Bool.
 Import ListNotations.
@@ -20,12 +21,15 @@ Definition code (c : ascii) : nat := nat_of_ascii c.
 Definition in_item (c : ascii) (it : ascii * ascii) : bool :=
   Nat.leb (code (fst it)) (code c) && Nat.leb (code c) (code (snd it)).
 Definition newline : ascii := ascii_of_nat 10.
+(* end-of-string sentinel: the subject is matched with this character appended, `$` is the one-character
+   pattern for it, and no other class accepts it *)
+Definition eos : ascii := ascii_of_nat 0.
 
 Definition chr_matches (r : rx) (c : ascii) : bool :=
   match r with
   | RChr d => Ascii.eqb c d
-  | RAny => negb (Ascii.eqb c newline)
-  | RSet neg items => xorb neg (existsb (in_item c) items)
+  | RAny => negb (Ascii.eqb c newline) && negb (Ascii.eqb c eos)
+  | RSet neg items => negb (Ascii.eqb c eos) && xorb neg (existsb (in_item c) items)
   | _ => false
   end.
 
@@ -102,8 +106,60 @@ Definition apply_quant (q : ascii) (r : rx) : rx :=
   else if Ascii.eqb q "+"%char then RSeq r (RStar r)
   else RAlt r REps.
 
-(* alt := seq ('|' seq)* ; seq := piece+ ; piece := atom quant? ; atom := chr | . | [set] | ( alt ) *)
-Fixpoint parse_alt (fuel : nat) (cs : list ascii) : option (rx * list ascii) :=
+(* r{m}, r{m,}, r{m,n} *)
+Fixpoint rx_pow (r : rx) (n : nat) : rx := match n with 0 => REps | S n' => RSeq r (rx_pow r n') end.
+Fixpoint rx_upto (r : rx) (n : nat) : rx := match n with 0 => REps | S n' => RAlt (RSeq r (rx_upto r n')) REps end.
+Definition rx_rep (r : rx) (m : nat) (n : option nat) : option rx :=
+  match n with
+  | None => Some (RSeq (rx_pow r m) (RStar r))
+  | Some n => if Nat.leb m n then Some (RSeq (rx_pow r m) (rx_upto r (n - m))) else None
+  end.
+
+Definition is_digit_c (c : ascii) : bool := Nat.leb 48 (code c) && Nat.leb (code c) 57.
+Fixpoint take_digits (cs : list ascii) : list ascii * list ascii :=
+  match cs with
+  | c :: r => if is_digit_c c then let '(d, r') := take_digits r in (c :: d, r') else ([], cs)
+  | [] => ([], [])
+  end.
+Definition digits_nat (ds : list ascii) : nat := fold_left (fun acc c => acc * 10 + (code c - 48)) ds 0.
+
+(* after '{': m } | m , } | m , n } | , n }   with at most two digits each *)
+Definition parse_count (cs : list ascii) : option (nat * option nat * list ascii) :=
+  let '(d1, r1) := take_digits cs in
+  if Nat.ltb 2 (List.length d1) then None else
+  match r1 with
+  | "}"%char :: r => match d1 with [] => None | _ => Some (digits_nat d1, Some (digits_nat d1), r) end
+  | ","%char :: r2 =>
+      let '(d2, r3) := take_digits r2 in
+      if Nat.ltb 2 (List.length d2) then None else
+      match r3 with
+      | "}"%char :: r =>
+          match d1, d2 with
+          | [], [] => None
+          | _, [] => Some (digits_nat d1, None, r)
+          | _, _ => Some (digits_nat d1, Some (digits_nat d2), r)
+          end
+      | _ => None
+      end
+  | _ => None
+  end.
+
+(* backslash escapes: the classes \d \w \s and their complements, and escaped punctuation *)
+Definition c_ (s : string) : ascii := match s with String c _ => c | EmptyString => eos end.
+Definition class_items (c : ascii) : option (bool * list (ascii * ascii)) :=
+  let digits := [(c_ "0", c_ "9")] in
+  let words := [(c_ "a", c_ "z"); (c_ "A", c_ "Z"); (c_ "0", c_ "9"); (c_ "_", c_ "_")] in
+  let spaces := [(c_ " ", c_ " "); (ascii_of_nat 9, ascii_of_nat 13)] in
+  if Ascii.eqb c (c_ "d") then Some (false, digits) else if Ascii.eqb c (c_ "D") then Some (true, digits)
+  else if Ascii.eqb c (c_ "w") then Some (false, words) else if Ascii.eqb c (c_ "W") then Some (true, words)
+  else if Ascii.eqb c (c_ "s") then Some (false, spaces) else if Ascii.eqb c (c_ "S") then Some (true, spaces)
+  else None.
+Definition is_backslash_c (c : ascii) : bool := Nat.eqb (code c) 92.
+
+(* alt := seq ('|' seq)* ; seq := piece+ ; piece := atom (quant | {count})? ;
+   atom := chr | . | [set] | ( alt ) | \class | \punct ;
+   at top level a sequence may start with ^ and end with $ *)
+Fixpoint parse_alt (fuel : nat) (top : bool) (cs : list ascii) : option (rx * list ascii) :=
   match fuel with
   | 0 => None
   | S f =>
@@ -115,11 +171,21 @@ Fixpoint parse_alt (fuel : nat) (cs : list ascii) : option (rx * list ascii) :=
       | "["%char :: r =>
           match parse_set (S (List.length r)) r [] with Some (items, r') => Some (RSet false items, r') | None => None end
       | "("%char :: r =>
-          match parse_alt f r with
+          match parse_alt f false r with
           | Some (a, ")"%char :: r') => Some (a, r')
           | _ => None
           end
-      | c :: r => if is_special c || negb (printable c) then None else Some (RChr c, r)
+      | c :: r =>
+          if is_backslash_c c then
+            match r with
+            | d :: r' =>
+                match class_items d with
+                | Some (neg, items) => Some (RSet neg items, r')
+                | None => if printable d && negb (is_alnum d) then Some (RChr d, r') else None
+                end
+            | [] => None
+            end
+          else if is_special c || negb (printable c) then None else Some (RChr c, r)
       | [] => None
       end in
     let parse_piece (cs : list ascii) : option (rx * list ascii) :=
@@ -131,6 +197,16 @@ Fixpoint parse_alt (fuel : nat) (cs : list ascii) : option (rx * list ascii) :=
             | q2 :: _ => if is_quant q2 then None else Some (apply_quant q a, r)
             | [] => Some (apply_quant q a, r)
             end
+          else if Ascii.eqb q "{"%char then
+            match parse_count r with
+            | Some (m, n, r') =>
+                match rx_rep a m n, r' with
+                | Some a', q2 :: _ => if is_quant q2 then None else Some (a', r')
+                | Some a', [] => Some (a', r')
+                | None, _ => None
+                end
+            | None => None
+            end
           else Some (a, q :: r)
       | Some (a, []) => Some (a, [])
       end in
@@ -141,6 +217,15 @@ Fixpoint parse_alt (fuel : nat) (cs : list ascii) : option (rx * list ascii) :=
         match cs with
         | [] | "|"%char :: _ | ")"%char :: _ =>
             match acc with Some a => Some (a, cs) | None => None end
+        | "^"%char :: r =>
+            match acc with
+            | None => if top then parse_seq n' r (Some REps) else None
+            | Some _ => None
+            end
+        | "$"%char :: r =>
+            if top && match r with [] => true | "|"%char :: _ => true | _ => false end
+            then Some (match acc with Some a => RSeq a (RChr eos) | None => RChr eos end, r)
+            else None
         | _ =>
             match parse_piece cs with
             | None => None
@@ -171,15 +256,15 @@ Definition rx_parse (p : string) : option rx :=
   let cs := list_ascii_of_string p in
   match cs with
   | [] => Some REps                       (* the empty pattern matches the empty prefix *)
-  | _ => match parse_alt (S (List.length cs)) cs with
+  | _ => match parse_alt (S (List.length cs)) true cs with
          | Some (r, []) => Some r
          | _ => None
          end
   end.
 
-(* re.match(p, s) is not None, for patterns of the subset *)
+(* re.match(p, s) is not None, for patterns of the subset; the subject is followed by the sentinel *)
 Definition re_match (p s : string) : option bool :=
   match rx_parse p with
-  | Some r => Some (rx_match_prefix r (list_ascii_of_string s))
+  | Some r => Some (rx_match_prefix r (list_ascii_of_string s ++ [eos]))
   | None => None
   end.
